@@ -9,6 +9,9 @@ import MVoro.Model.InSphere
 import MVoro.Gen.InSphere
 import MVoro.Model.Oracle
 import MVoro.Model.Tess
+import MVoro.Model.Grid
+import MVoro.Gen.Grid
+import MVoro.Gen.Face
 
 open MVoro
 
@@ -149,6 +152,28 @@ def opRoutes (args : List String) : String :=
           ++ s!" ZD {zd.length} " ++ " ".intercalate (zd.map fun (i, d) => s!"{i} {d}")
     | _ => "bad-op"
 
+/-- op `iloc`: exact rescaled coordinate and grid coordinate per axis with the translated domain constants -/
+def opIloc (args : List String) : String :=
+  match args with
+  | dim :: per :: rest =>
+    match dim.toNat?, takeV3 rest with
+    | some dim, some (a, rest) =>
+      match takeV3 rest with
+      | some (w, rest) =>
+        match takeV3 rest with
+        | some (p, _) =>
+          let periodic := per == "1"
+          let ax (a w x : Rat) (on : Bool) : String :=
+            let (A, W) := Grid.tripled a w on
+            let r := Grid.rescaleExact Gen.gridPad Gen.gridSpan A W x
+            let m := Grid.mantissa r
+            s!"{ratStr r} {m.floor}"
+          ax a.x w.x p.x periodic ++ " " ++ ax a.y w.y p.y (periodic && dim ≥ 2) ++ " " ++ ax a.z w.z p.z (periodic && dim ≥ 3)
+        | none => "bad-op"
+      | none => "bad-op"
+    | _, _ => "bad-op"
+  | _ => "bad-op"
+
 def handle (line : String) : String :=
   let line := line.trimAscii.toString
   let inputPart := (line.splitOn " | ").headD ""
@@ -159,6 +184,9 @@ def handle (line : String) : String :=
       | "tess" => opTess args
       | "cells" => opTess args
       | "routes" => opRoutes args
+      | "iloc" => opIloc args
+      | "addfar" => "-"
+      | "partial" => "-"
       | _ => "unknown-op"
     id ++ " " ++ res
   | _ => "? bad-line"
